@@ -106,7 +106,7 @@ StripLL(sc) == [sc EXCEPT !["LL"] = Absent]
 (***************************************************************************)
 (* The visitor                                                             *)
 (***************************************************************************)
-RECURSIVE Visit(_, _), VisitStmt(_, _), VisitHandlers(_, _, _, _, _), VisitTryExcept(_, _)
+RECURSIVE Visit(_, _), VisitStmt(_, _), VisitHandlers(_, _, _, _, _), VisitTryExcept(_, _), VisitCases(_, _, _, _)
 
 \* run `block` in a fresh subscope of S; returns the state afterwards with the outer `cur` restored
 \* (field st) and the subscope's final dict (field scope)
@@ -119,7 +119,7 @@ InSub(block, S) ==
 Suppress(S0, inner) ==
     LET S1 == inner.st
         rest == MkScope(LAMBDA n :
-                    IF n = "LS" THEN Absent
+                    IF n \in {"LS", "LL"} THEN Absent      \* `if key != LEAVES_SCOPE and key != LEAVES_LOOP` (repo 440760d)
                     ELSE LET d == S1.all[n] \ S0.all[n]
                          IN IF d = {} THEN Absent ELSE Entry(SetToSortedSeq(d)))
         dummy == SubCopy(S1.cur)
@@ -156,6 +156,19 @@ VisitTryExcept(s, S) ==
         out == [H.st EXCEPT !.cur = S.cur]                     \* leave the outer subscope
     IN Combine(out, <<E1.cur>> \o H.scopes, FALSE)
 
+\* visit_Match (name_check_visitor.py:5685): every case runs in its own subscope of the state before the statement
+\* (`outer`); a capture is set by PatmaVisitor.visit_MatchAs / visit_MatchStar (patma.py:381) with the pattern node as
+\* definition node; the subject is a call, so the pattern / guard constraints have no varname and change nothing.
+\* Returns [st, scopes].
+VisitCases(s, idx, S, outer) ==
+    IF idx > Len(s.cases) THEN [st |-> S, scopes |-> << >>]
+    ELSE LET c == s.cases[idx]
+             start == [S EXCEPT !.cur = SubCopy(outer)]
+             S1 == IF c.pat \in {"cap", "seq"} THEN SetName(start, s.v, c.id) ELSE start
+             R == Visit(c.body, S1)
+             more == VisitCases(s, idx + 1, [R EXCEPT !.cur = outer], outer)
+         IN [st |-> more.st, scopes |-> <<R.cur>> \o more.scopes]
+
 VisitStmt(s, S) ==
     CASE s.k = "assign"   -> SetName(S, s.v, s.id)
       [] s.k = "use"      -> UseName(S, s.v, s.id)
@@ -169,6 +182,53 @@ VisitStmt(s, S) ==
             LET b == InSub(s.body, S)
                 o == InSub(s.orelse, b.st)
             IN Combine(o.st, <<b.scope, o.scope>>, FALSE)
+      \* ---- other binding forms (each is FunctionScope.set with the binding node as definition node) ----
+      \* visit_AugAssign (:4762): composite_from_name(target, force_read=True) records the usage under the target
+      \* node, then visit(target) in Store context sets the name with the same node
+      [] s.k = "aug"      -> SetName(UseName(S, s.v, s.id), s.v, s.id)
+      \* visit_Import (:2668) -> _set_alias_in_scope: definition node = the ast.alias
+      [] s.k = "import"   -> SetName(S, s.v, s.id)
+      \* visit_ExceptHandler (:4482): _set_name_in_scope(node.name, node, ...) before the body; nothing afterwards
+      [] s.k = "exas"     -> SetName(S, s.v, s.id)
+      \* visit_If (:4554) with a walrus test: composite_from_walrus (:4669) sets the name, then the is_truthy constraint
+      \* on it is added at the start of both branches: _add_single_constraint (stacked_scopes.py:1058) looks the name
+      \* up with get_origin(varname, <the If node>) -- which records the current definition nodes as USED under the
+      \* key (If node, varname) (field cons) -- and makes a _ConstrainedValue node the current definition, which
+      \* resolves to the nodes current at that point (so the definition nodes are unchanged up to resolution)
+      [] s.k = "ifw" ->
+            LET S1 == SetName(S, s.v, s.id)
+                S2 == [S1 EXCEPT !.cons = @ \cup {s.id}]
+                b == InSub(s.body, S2)
+                o == InSub(s.orelse, b.st)
+            IN Combine(o.st, <<b.scope, o.scope>>, FALSE)
+      \* visit_single_cm (:4374): visit_withitem assigns optional_vars BEFORE the suppressing subscope is opened
+      [] s.k = "withas" ->
+            LET S1 == SetName(S, s.v, s.id)
+            IN IF s.supp THEN Suppress(S1, InSub(s.body, S1)) ELSE Visit(s.body, S1)
+      \* visit_For (:4230): visit(node.target) right before the body, inside the loop scope, in both visits
+      [] s.k = "forv" ->
+            VisitStmt([k |-> "for", id |-> s.id, body |-> <<[k |-> "assign", v |-> s.v, id |-> s.id]>> \o s.body,
+                       orelse |-> s.orelse], S)
+      [] s.k = "match" ->
+            LET C == VisitCases(s, 1, S, S.cur)
+                \* after an unguarded irrefutable case the narrowed subject is NO_RETURN_VALUE: the implicit else is a scope
+                \* that leaves (repo 38601f1); a guarded case never exhausts the subject
+                exhaustive == \E i \in 1..Len(s.cases) : s.cases[i].pat \in {"cap", "wild"} /\ ~s.cases[i].guard
+                E0 == [C.st EXCEPT !.cur = SubCopy(S.cur)]
+                E1 == IF exhaustive THEN SetName(E0, "LS", s.id) ELSE E0
+            IN Combine([E1 EXCEPT !.cur = S.cur], C.scopes \o <<E1.cur>>, FALSE)
+      \* ---- inner scopes ----
+      \* a comprehension (_visit_sequence_comp :2962), a lambda (visit_Lambda :2231) and a class body are visited in
+      \* their own scope; a name they do not bind is looked up in the enclosing FunctionScope with the key
+      \* (varname, scope node) -- the same route as a nested def (UseNested), once per phase of the enclosing function
+      [] s.k = "cuse"     -> UseNested(S, s.v, s.id)
+      \* the first iterable is visited in the enclosing scope before the comprehension's scope is added (:2969)
+      [] s.k = "citer"    -> UseName(S, s.v, s.id)
+      \* targets of a comprehension / class-body assignments are set in the inner scope
+      [] s.k = "cbind"    -> S
+      \* composite_from_walrus (:4669) inside a comprehension body: ignore_topmost_scope(), i.e. a plain
+      \* FunctionScope.set in the enclosing function -- unconditionally
+      [] s.k = "cwal"     -> SetName(S, s.v, s.id)
       [] s.k \in {"while", "for"} ->
             LET always == s.k = "while" /\ s.true
                 \* with subscope() as body_scope:  with loop_scope() as loop_scopes:
@@ -211,26 +271,47 @@ Visit(block, S) == IF block = << >> THEN S ELSE Visit(Tail(block), VisitStmt(Hea
 \* ---- a whole function body ------------------------------------------------------
 MaxId == 12
 S0 == [cur |-> EmptyScope, usage |-> [u \in 1..MaxId |-> Absent], all |-> [x |-> {}, y |-> {}, LS |-> {}, LL |-> {}], loops |-> << << >> >>,
-       phase |-> "collect", mod |-> [v \in Vars |-> {}]]
+       phase |-> "collect", mod |-> [v \in Vars |-> {}],
+       cons |-> {}]       \* definition nodes recorded as used through a constraint lookup (get_origin)
 
 RECURSIVE HasKind(_, _)
 HasKind(block, kinds) ==
     \E i \in 1..Len(block) :
         LET s == block[i]
         IN \/ s.k \in kinds
-           \/ s.k \in {"if", "while", "for"} /\ (HasKind(s.body, kinds) \/ HasKind(s.orelse, kinds))
-           \/ s.k = "with" /\ HasKind(s.body, kinds)
+           \/ s.k \in IfKinds \cup LoopKinds /\ (HasKind(s.body, kinds) \/ HasKind(s.orelse, kinds))
+           \/ s.k \in WithKinds /\ HasKind(s.body, kinds)
            \/ s.k = "try" /\ (HasKind(s.body, kinds) \/ HasKind(s.orelse, kinds) \/ HasKind(s.final, kinds)
                               \/ \E j \in 1..Len(s.handlers) : HasKind(s.handlers[j], kinds))
+           \/ s.k = "match" /\ \E j \in 1..Len(s.cases) : HasKind(s.cases[j].body, kinds)
 
 \* The function body is visited twice: collecting, then checking.  The FunctionScope is NOT reset in between
 \* (name_to_current_definition_nodes keeps its final collecting-phase contents), and only lookups from nested
 \* functions add to usage_to_definition_nodes during the second visit.
-ImplUsage(prog) ==
+\* definition nodes the unused-variable check (_check_function_unused_vars, name_check_visitor.py:2394) counts as
+\* used: everything in usage_to_definition_nodes, including the keys created by constraint lookups
+ImplFinal(prog) ==
     LET P1 == Visit(prog, S0)
-    IN IF HasKind(prog, {"defg", "defn"})
-       THEN Visit(prog, [P1 EXCEPT !.phase = "check", !.loops = << << >> >>]).usage
-       ELSE P1.usage
+    IN IF HasKind(prog, {"defg", "defn", "cuse"})
+       THEN Visit(prog, [P1 EXCEPT !.phase = "check", !.loops = << << >> >>])
+       ELSE P1
+ImplUsage(prog) == ImplFinal(prog).usage
+ImplUsedNodes(F) == F.cons \cup UNION {ToSet(F.usage[u].nodes) : u \in DOMAIN F.usage}
+\* names looked up from a nested scope (accessed_from_special_nodes, stacked_scopes.py:1140) or assigned through
+\* nonlocal (:1118) are exempt from the check
+RECURSIVE SpecialVars(_)
+SpecialVars(block) ==
+    UNION {LET s == block[i]
+           IN CASE s.k \in {"defg", "defn", "cuse"} -> {s.v}
+                [] s.k \in IfKinds \cup LoopKinds -> SpecialVars(s.body) \cup SpecialVars(s.orelse)
+                [] s.k \in WithKinds -> SpecialVars(s.body)
+                [] s.k = "try" -> SpecialVars(s.body) \cup SpecialVars(s.orelse) \cup SpecialVars(s.final)
+                                  \cup UNION {SpecialVars(s.handlers[j]) : j \in 1..Len(s.handlers)}
+                [] s.k = "match" -> UNION {SpecialVars(s.cases[j].body) : j \in 1..Len(s.cases)}
+                [] OTHER -> {}
+           : i \in 1..Len(block)}
+\* is the definition made by statement d (of variable v) reported as unused_variable / unused_assignment?
+ImplReportedUnused(prog, F, d, v) == d \notin ImplUsedNodes(F) /\ v \notin SpecialVars(prog)
 \* what pyanalyze reports at a use: the definition nodes recorded for it (0 = "may be unbound");
 \* a use without an entry is not a local at all there: undefined_name
 ImplReported(prog, useid) ==
